@@ -72,7 +72,7 @@ PLANS = {
     },
     # same seeds on nightly (default features) and nightly + `unstable`; per-run digests must agree
     "C18": {
-        "quick": [{"kind": "differential", "cfgs": ["nightly", "nightly-unstable"], "control": "dbg", "profs": ["C18", "C18io", "C18zst"], "runs": 150_000}],
+        "quick": [{"kind": "differential", "cfgs": ["nightly", "nightly-unstable"], "control": "dbg", "profs": ["C18", "C18io", "C18zst", "C05", "C06", "C10"], "runs": 150_000}],
         "thorough": [
             {"kind": "differential", "cfgs": ["nightly", "nightly-unstable"], "control": "dbg", "profs": ["C18", "C18io", "C18zst", "C05", "C06", "C10", "C09", "C12"], "runs": 4_000_000},
             {"kind": "differential", "cfgs": ["nightly-rel", "nightly-unstable-rel"], "profs": ["C18", "C18io", "C18zst"], "runs": 4_000_000},
